@@ -150,6 +150,9 @@ func runC15(c *Ctx) {
 				case *ast.AssignStmt:
 					for i, l := range x.Lhs {
 						if lid, ok := l.(*ast.Ident); ok && info.ObjectOf(lid) == obj {
+							if len(x.Rhs) == len(x.Lhs) && isNilIdent(info, x.Rhs[i]) {
+								continue // err = nil: nothing to return there
+							}
 							ndef++
 							if len(x.Rhs) == len(x.Lhs) && isProto(x.Rhs[i]) {
 								nproto++
@@ -159,6 +162,9 @@ func runC15(c *Ctx) {
 				case *ast.ValueSpec:
 					for i, nm := range x.Names {
 						if info.ObjectOf(nm) == obj {
+							if len(x.Values) == 0 {
+								continue // var err error
+							}
 							ndef++
 							if len(x.Values) == len(x.Names) && isProto(x.Values[i]) {
 								nproto++
@@ -300,6 +306,24 @@ func runC15(c *Ctx) {
 
 	// ---- R15.3 routing ----
 	destT := TField(mT, fDest)
+	// emptyDest: the state says that the destination (the request's, or its copy in the
+	// forwarded message) is / is not the empty string
+	emptyDest := func(st *State, pos bool) bool {
+		if st.HasFact(mkFact(pos, "eq", TStr(""), destT)) {
+			return true
+		}
+		for _, f := range st.Facts() {
+			if f.Op != "eq" || f.Pos != pos || f.B == nil {
+				continue
+			}
+			for _, pr := range [][2]*Term{{f.A, f.B}, {f.B, f.A}} {
+				if pr[0].K == 'c' && pr[0].Name == `""` && pr[1].K == 'f' && pr[1].Obj == types.Object(fDest) && st.EqualUnder(pr[1], destT) {
+					return true
+				}
+			}
+		}
+		return false
+	}
 	for _, cs := range p.CallSites() {
 		if cs.In != hm {
 			continue
@@ -315,7 +339,7 @@ func runC15(c *Ctx) {
 		}
 		switch {
 		case fnIs(f, "rtpconn", "", "broadcast"):
-			okDest := st.HasFact(mkFact(true, "eq", TStr(""), destT))
+			okDest := emptyDest(st, true)
 			// recipients: g.GetClients(except), except assigned c only under m.NoEcho
 			okRcpt := false
 			why := "recipients are not g.GetClients(except)"
@@ -332,7 +356,7 @@ func runC15(c *Ctx) {
 			if id, ok := unparen(r).(*ast.Ident); ok && info.ObjectOf(id) == own {
 				continue
 			}
-			okDest := st.HasFact(mkFact(false, "eq", TStr(""), destT))
+			okDest := emptyDest(st, false)
 			// receiver derives from g.GetClient(m.Dest)
 			okTarget := false
 			rt := ff.term(r)
@@ -392,7 +416,16 @@ func exceptVarSound(p *Program, ff *FuncFacts, fs *FuncSrc, ex, own types.Object
 						continue
 					}
 					st, _ := ff.At(x)
-					if st == nil || !st.HasFact(mkFact(true, "true", noecho, nil)) {
+					held := st != nil && st.HasFact(mkFact(true, "true", noecho, nil))
+					if st != nil && !held {
+						// the flag read from the forwarded copy of the request
+						for _, f := range st.Facts() {
+							if f.Op == "true" && f.Pos && f.A.K == 'f' && f.A.Obj == noecho.Obj && st.EqualUnder(f.A, noecho) {
+								held = true
+							}
+						}
+					}
+					if !held {
 						ok, why = false, "the sender is excluded without m.NoEcho"
 					}
 				}
@@ -450,7 +483,14 @@ func derivesFromGetClient(p *Program, ff *FuncFacts, fs *FuncSrc, st *State, r a
 				return false
 			}
 			t := ff.term(x.Args[0])
-			return t != nil && t.String() == dest.String()
+			if t != nil && t.String() == dest.String() {
+				return true
+			}
+			// the destination read from the forwarded copy of the request
+			if cst, _ := ff.At(x); cst != nil && t != nil && t.K == 'f' && t.Obj == dest.Obj && cst.EqualUnder(t, dest) {
+				return true
+			}
+			return false
 		default:
 			return false
 		}
